@@ -1671,6 +1671,7 @@ func (mgr *Manager) convertStreamJob(allConverters []*converters.CachedConverter
 		mgr.inheritTagUncertainty()
 		mgr.startTaggingJobIfNeeded()
 		mgr.startConverterJobIfNeeded()
+		mgr.startMergeJobIfNeeded()
 		releaser.release(mgr)
 	}
 }
